@@ -176,6 +176,7 @@ type Engine struct {
 	dirs          map[string][]Value
 	files         map[string][]Value // modelled regular files (osfile.go)
 	dirOff        map[*Value]int     // read position of modelled directory handles
+	md5Acc        map[*Value][]Value // bytes written to streaming MD5 digests
 	gomaxprocs    *term.T
 	tableLoop     *tableLoopSpec
 	trace         []string
